@@ -2,7 +2,7 @@
 import vlib, extract, genobl
 
 
-def prove(ctx, modules, with_obligations=True, with_wrappers=False, wrap_kinds=('c01',)):
+def prove(ctx, modules, with_obligations=True, with_wrappers=False, wrap_kinds=('c01',), inst_kinds=None):
     tabs = extract.tables()
     extract.write_lean(tabs)
     gen = []
@@ -20,14 +20,22 @@ def prove(ctx, modules, with_obligations=True, with_wrappers=False, wrap_kinds=(
                                         if v['encode'] != 'traced' or v['decode'] not in ('traced', 'not overridden')}
         ctx.winfo = winfo
         modules.append('IRModel.Props.Wrapper')
+        modules.append('IRModel.Props.Instances')
     if with_obligations:
         names, missing = genobl.write(tabs)
         gen = ['IRGen.Obligations']
         for m in missing:
             ctx.oblige('IRGen.Obl.wf_%s' % m, False, 'protocol listed in tools/fragment.json is no longer modelled (table shape changed)')
-        ctx.extra['classA_protocols'] = len(names) // 3
+        ctx.extra['classA_protocols'] = sum(1 for n in names if '.wf_' in n) // 3
+        ctx.extra['classB_protocols'] = sum(1 for n in names if '.wfB_' in n) // 3
     if with_wrappers:
         gen = gen + wmods
+        if inst_kinds is None:
+            inst_kinds = wrap_kinds[:1]
+        inst_kinds = [k for k in inst_kinds if with_obligations or k not in wrapgen.NEEDS_ENGINE]
+        imods = wrapgen.write_instances(tabs, winfo, inst_kinds)
+        gen = gen + imods
+        ctx.extra['instance_theorems'] = sum(len(vlib.theorems_in(m)) for m in imods)
     ok = vlib.prove(ctx, modules, gen)
     return tabs, ok
 
@@ -38,7 +46,7 @@ def failed_protocols(ctx):
     for name, ok, detail in ctx.obligations:
         if not ok and 'IRGen.WrapObl.c' in name:
             out.add(name.split('w_', 1)[1])
-        elif not ok and ('IRGen.Obl.wf_' in name or 'IRGen.Obl.wftol_' in name):
+        elif not ok and ('IRGen.Obl.wf_' in name or 'IRGen.Obl.wfB_' in name or 'IRGen.Obl.wftol_' in name):
             tail = name.split('_', 1)[1] if False else name.split('.')[-1].split('_', 1)[1]
             out.add(tail.rsplit('_', 1)[0] if tail.rsplit('_', 1)[-1].isdigit() else tail)
     return out
